@@ -197,6 +197,26 @@ impl Sched {
         r
     }
 
+    /// Like `run`, but reaching `max_steps` is not noted as a step-cap hit: for monitors that run
+    /// in slices and look at intermediate states (they call `note_step_cap` at their real cap).
+    pub fn run_slice(&mut self, max_steps: u64) -> RunEnd {
+        let r = self.run_inner(max_steps);
+        CASE_STATS.with(|c| {
+            let mut c = c.borrow_mut();
+            c.max_steps = c.max_steps.max(self.steps);
+        });
+        r
+    }
+
+    pub fn note_step_cap(&self, cap: u64) {
+        CASE_STATS.with(|c| {
+            let mut c = c.borrow_mut();
+            if c.cap_hit.is_none() {
+                c.cap_hit = Some((cap, self.pending_tasks().iter().map(|s| s.to_string()).collect()));
+            }
+        });
+    }
+
     fn run_inner(&mut self, max_steps: u64) -> RunEnd {
         let limit = self.steps + max_steps;
         loop {
